@@ -115,3 +115,33 @@ check("C19", "model_checking",
       "bounds: batches <= 3 in the table (<= 8 random); HTTP layer limits, server shutdown, concurrent connections, timing of the "
       "key comparison and case-insensitive envelope field names are outside; needs loopback TCP and a unix socket",
       "TLA+ reference model of the gate (full case table) + real servers over three transports + TLC trace validation", "DESIGN.md#c19")
+
+HOOK_COMMITS += ["afa1646b", "bb1ce97c"]
+
+import importlib.util as _ilu, sys as _sys
+_sys.path.insert(0, os.path.join(VERIF, "tools"))
+
+
+def _from_module(pid):
+    """Checks built with a proposed MANIFEST constant in their props module."""
+    spec = _ilu.spec_from_file_location("props_" + pid.lower(), os.path.join(VERIF, "tools", "props", pid.lower() + ".py"))
+    src = open(spec.origin).read()
+    i = src.find("MANIFEST = dict(")
+    if i < 0:
+        return None
+    depth, j = 0, i + len("MANIFEST = dict")
+    while True:
+        if src[j] == "(":
+            depth += 1
+        elif src[j] == ")":
+            depth -= 1
+            if depth == 0:
+                break
+        j += 1
+    ns = {}
+    exec(src[i:j + 1], ns)
+    return ns["MANIFEST"]
+
+
+_m = _from_module("C03")
+check(_m["id"], _m["category"], _m["text"], _m["note"], _m["technique"], _m["design_ref"])
